@@ -83,6 +83,7 @@ class Contract:
     policy = {}
     cases = None
     doc = ''
+    shards = 1                 # >1: the setup cases are distributed over that many worker processes
     tier = 'quick'             # 'thorough': verified only in the thorough tier (slow obligations)
 
     def __init__(self):
